@@ -214,12 +214,14 @@ end dict
 
 /-- what the model assumes about letter classes here: the keyword spellings are single words that fold
     to themselves, folding a word never produces a parenthesis, a parenthesis is not a blank and
-    U+0020 is one (true of Python's `str.lower` and `\s`) -/
+    U+0020 is one, and the capital letters of AND / OR / WITH are word characters that fold to the
+    small ones (true of Python's `str.lower` and `\s`) -/
 structure ClsOK (c : Cls) : Prop where
   kw : ∀ k ∈ KEYWORDS, wordsOf c k.spelling = [k.spelling]
   noParen : ∀ x, kindOf c x = .word → LPAR ∉ c.lower x ∧ RPAR ∉ c.lower x
   parenNotSpace : c.isSpace LPAR = false ∧ c.isSpace RPAR = false
   space : c.isSpace SPACE = true
+  upper : ∀ x ∈ [65, 78, 68, 79, 82, 87, 73, 84, 72], kindOf c x = .word ∧ c.lower x = [x + 32]
 
 /-- the premise of C18 on the table: no aliases, every key one word (no whitespace, no parentheses),
     no key an operator word -/
@@ -608,5 +610,28 @@ theorem ltok_eq_bind (c : Cls) (T : Table) (simple strict : Bool) (text : Str) :
 theorem ltok_agree (c : Cls) (hc : ClsOK c) (T : Table) (hT : SpaceFreeT c T) (strict : Bool) (text : Str)
     (hadj : NoAdjacentPlain c text) : ltok c T true strict text = ltok c T false strict text := by
   rw [ltok_eq_bind, ltok_eq_bind, merged_agree c hc T hT text hadj]
+
+theorem pieces_chars (c : Cls) (s : Str) (p : Piece) (hp : p ∈ pieces c s) : ∀ x ∈ p.text, x ∈ s := by
+  intro x hx
+  have := pieces_concat c s
+  rw [← this]
+  simp only [List.mem_flatten, List.mem_map]
+  exact ⟨p.text, ⟨p, hp, rfl⟩, hx⟩
+
+theorem blank_no_words (c : Cls) (hc : ClsOK c) (s : Str) (h : isBlank c s = true) : wordsOf c s = [] := by
+  have hall : ∀ x ∈ s, c.isSpace x = true := by simpa [isBlank] using h
+  have : wordPieces c s = [] := by
+    unfold wordPieces
+    rw [List.filter_eq_nil_iff]
+    intro p hp
+    obtain ⟨hne, hkind, _⟩ := pieces_kind c s p hp
+    obtain ⟨x, hx⟩ := List.exists_mem_of_ne_nil _ hne
+    have hsp := hall x (pieces_chars c s p hp x hx)
+    have hk := hkind x hx
+    have h1 : x ≠ LPAR := by intro h; rw [h, hc.parenNotSpace.1] at hsp; cases hsp
+    have h2 : x ≠ RPAR := by intro h; rw [h, hc.parenNotSpace.2] at hsp; cases hsp
+    simp [kindOf, h1, h2, hsp] at hk
+    simp [← hk]
+  simp [wordsOf, this]
 
 end LE
